@@ -90,7 +90,7 @@ def unit_flags(src):
     return m.group(1).split() if m else []
 
 
-def build_units(name, extra_flags=(), tag=''):
+def build_units(name, extra_flags=(), tag='', only_cfgs=None):
     """compile trace/units/<name>.cpp against /repo (all parts in parallel, content-addressed cache).
     returns (list of binaries, error text or None)"""
     src = os.path.join(VERIF, 'trace', 'units', name + '.cpp')
@@ -101,7 +101,7 @@ def build_units(name, extra_flags=(), tag=''):
     n = unit_parts(src)
     ncfg = unit_configs(src)
     bins, jobs = [], []
-    for c in range(ncfg):
+    for c in (range(ncfg) if only_cfgs is None else [c for c in range(ncfg) if c in only_cfgs]):
       for k in range(n):
         out = os.path.join(CACHE, '%s%s_p%d_c%d_%s.bin' % (name, tag, k, c, key))
         bins.append(out)
@@ -110,7 +110,7 @@ def build_units(name, extra_flags=(), tag=''):
             jobs.append((['g++'] + flags + ['-o', out + '.tmp', src], out))
     # drop stale binaries of this unit
     for old in glob.glob(os.path.join(CACHE, '%s%s_p*_*.bin' % (name, tag))):
-        if old not in bins:
+        if old not in bins and (only_cfgs is None or key not in old):
             try: os.remove(old)
             except OSError: pass
     errs = []
